@@ -345,6 +345,8 @@ impl Model {
             }
             Op::Drain { v, lo, hi, script, end, .. } => {
                 ex.nontrivial = true;
+                let l0 = self.vecs[*v].len();
+                let (lo, hi) = (&at_len(*lo, l0), &at_len(*hi, l0));
                 let Some((a, b)) = resolve_range(lo, hi, self.vecs[*v].len()) else {
                     ex.out.panicked = true;
                     return ex;
@@ -354,6 +356,8 @@ impl Model {
             }
             Op::Splice { v, lo, hi, repl, script, end, .. } => {
                 ex.nontrivial = true;
+                let l0 = self.vecs[*v].len();
+                let (lo, hi) = (&at_len(*lo, l0), &at_len(*hi, l0));
                 let Some((a, b)) = resolve_range(lo, hi, self.vecs[*v].len()) else {
                     ex.out.panicked = true;
                     // the replacement iterator was built by the caller and is dropped unconsumed:
